@@ -163,7 +163,7 @@ TIES = {
     "C17": ["GenEq/GenEqSrcCli", "GenEq/GenEqStrat"],
     "C18": ["GenEq/GenEqStatus", "GenEq/GenEqSrcRun"],
     "C19": ["GenEq/GenEqSrcInterest"],
-    "C20": ["GenEq/GenEqTemp", "GenEq/GenEqSrcDriver"],
+    "C20": ["GenEq/GenEqTemp", "GenEq/GenEqSrcDriver", "GenEq/GenEqSrcCli"],
 }
 
 
